@@ -244,6 +244,14 @@ def perp_frame(d):
 
 
 def b_rhp(ch):
+    mnem = ch.choose('mnemonic', ['rhp', 'hex'])
+    st = _b_rhp(ch)
+    st.body.card = mnem + st.body.card[3:]
+    st.surfs = ['1 ' + st.body.card]
+    return st
+
+
+def _b_rhp(ch):
     v = np.array(ch.choose('base', BASES))
     d, a, b = perp_frame(ch.choose('axis', AXDIRS))
     h = d * ch.choose('H', [4.0, 1.5])
